@@ -560,8 +560,15 @@ func (g *Gen) Subtable(k shaper.Kind, m *gtab.LookupMetaInfo) gtab.Subtable {
 	case shaper.Gpos2_1:
 		l := gtab.Gpos2_1{}
 		withSecond := r.IntN(2) == 0
+		// value format 0 for the first glyph: the records carry no value for
+		// it (with no second value either, a record is empty - it still is a
+		// match and keeps later subtables from being tried)
+		firstNil := r.IntN(5) == 0
 		for i, n := 0, 1+r.IntN(4); i < n; i++ {
-			pa := &gtab.PairAdjust{First: g.value(false)}
+			pa := &gtab.PairAdjust{}
+			if !firstNil {
+				pa.First = g.value(false)
+			}
 			if withSecond {
 				pa.Second = g.value(false)
 			}
@@ -573,10 +580,14 @@ func (g *Gen) Subtable(k shaper.Kind, m *gtab.LookupMetaInfo) gtab.Subtable {
 		nc1, nc2 := 1+r.IntN(3), 1+r.IntN(3)
 		l := &gtab.Gpos2_2{Cov: covSet(g.glyphSet(m, 1, 3)), Class1: g.classDef(nc1), Class2: g.classDef(nc2)}
 		withSecond := r.IntN(2) == 0
+		firstNil := r.IntN(5) == 0 // see Gpos2_1
 		for i := 0; i < nc1; i++ {
 			row := make([]*gtab.PairAdjust, nc2)
 			for j := range row {
-				row[j] = &gtab.PairAdjust{First: g.value(false)}
+				row[j] = &gtab.PairAdjust{}
+				if !firstNil {
+					row[j].First = g.value(false)
+				}
 				if withSecond {
 					row[j].Second = g.value(false)
 				}
